@@ -16,7 +16,7 @@ from collections import Counter
 
 from . import boot
 from .boot import HarnessError
-from .core import run_seed, rng_for, jdump
+from .core import run_seed, rng_for, jdump, finish_plan
 
 # property -> list of (world, share of the budget, chunk size)
 REGISTRY = {}
@@ -95,6 +95,7 @@ def _one_here(wname, prop, master, i, tier, trace=False):
     plan = w.generate(rng, (prop,), tier)
     plan["run_seed"] = seed
     plan["index"] = i
+    finish_plan(plan, seed)
     ctx = w.execute(plan, (prop,), trace=trace)
     return plan, ctx
 
@@ -122,6 +123,7 @@ def work(args):
                     pl = wmod.generate(rng_for(seed), (prop,), tier)
                     pl["run_seed"] = seed
                     pl["index"] = i
+                    finish_plan(pl, seed)
                     plans.append(pl)
                 ctxs = wmod.execute_chunk(plans, (prop,))
                 pre = dict((i, (pl, cx)) for i, pl, cx in zip(indices, plans, ctxs))
@@ -156,6 +158,7 @@ def work(args):
                     seed2 = run_seed(master, prop, wname, i)
                     plan2 = wmod.generate(rng_for(seed2), (prop,), tier)
                     plan2["run_seed"], plan2["index"] = seed2, i
+                    finish_plan(plan2, seed2)
                     agg["digests"][i] = "plan:" + __import__("hashlib").sha256(jdump(plan).encode()).hexdigest()
                     if jdump(plan2) != jdump(plan):
                         agg["nondeterministic"].append(i)
